@@ -109,8 +109,20 @@ def global_state():
                 if k == "context" or (k == "name" and v == cls.__name__):
                     continue
                 out.append((cls.__name__ + "." + k, repr(_plain(v))[:500]))
-    # mutable default arguments of functions and methods (a shared `macros=[]` survives a file just like a global)
+    # mutable class attributes of every other class of the package (a list declared in a class body is shared by all
+    # its instances, hence by all files of a run)
     import inspect
+    for mname in sorted(m for m in sys.modules if m == "norminette" or m.startswith("norminette.")):
+        mod = sys.modules[mname]
+        if mod is None:
+            continue
+        for cname, cls in sorted((k, v) for k, v in vars(mod).items() if inspect.isclass(v) and v.__module__ == mname):
+            if cls in seen:
+                continue
+            for k, v in sorted(vars(cls).items()):
+                if not k.startswith("__") and isinstance(v, (list, dict, set)):
+                    out.append((f"{mname}.{cname}.{k}", repr(_plain(v))[:2000]))
+    # mutable default arguments of functions and methods (a shared `macros=[]` survives a file just like a global)
     for mname in sorted(m for m in sys.modules if m == "norminette" or m.startswith("norminette.")):
         mod = sys.modules[mname]
         if mod is None:
